@@ -503,6 +503,16 @@ def jobs_C11(rng, tier):
                 fam, xs = gen.gen_stream(rng, L, n)
                 js.append(SpecEq(e, xs))
                 js.append(SpecEq(e, gen.gen_stream(rng, 120 if nm != "roof" else n + 130, n)[1], mode="f", rel=1e-8))
+    # the same views chained over inner views that have a warm-up of their own: the difference equations must be driven by
+    # the values the inner view DELIVERS (chain = stand-alone inner, then the view over Echo fed those values; f64, bitwise)
+    for nm in C11_VIEWS:
+        for _ in range(scale_n(tier, 4, 24)):
+            n = rng.randint(dict(roof=2, cc=6, tflex=3, rflex=3).get(nm, 1), 9)
+            outer = mk("lagf", ECHO, [F(rng.randint(1, 7), 8)]) if nm == "lagf" else (mk("roof", ECHO, [n, rng.randint(1, 5)]) if nm == "roof" else mk(nm, ECHO, [n]))
+            inner = rng.choice([mk("sma", ECHO, [rng.randint(2, 6)]), mk("ss", ECHO, [rng.randint(2, 5)]), mk("roc", ECHO, [rng.randint(1, 4)]),
+                                mk("ema", ECHO, [rng.randint(2, 5)]), mk("wo", ECHO, [rng.randint(3, 5)])])
+            fam, xs = gen.gen_stream(rng, n + rng.randint(20, 40), n, positive=True)
+            js.append(Decomp(outer, inner, xs))
     for _ in range(scale_n(tier, 30, 300)):
         k = rng.choice(["pfe", "eft"])
         ma = rng.choice([mk("ema", ECHO, [rng.randint(1, 4)]), mk("sma", ECHO, [rng.randint(1, 4)]), mk("emaa", ECHO, [rng.randint(1, 4), F(rng.choice([2, 3, 5]), 2)])])
@@ -869,6 +879,14 @@ def jobs_C16(rng, tier):
                 sk = dict(vst=1000.0, cog=float(n), roc=1e5)[sk]
             js.append(FpTrack(e, xs, 1e-6, sk, fam="three_decades"))
             js.append(FpTrack(e, xs[: min(L, 2000)], 1e-2, sk, fmode="s", fam="three_decades_f32"))
+        # one longer f32 stream per view: drift that grows with the stream length shows here first
+        n = rng.randint(2, 6)
+        e = mk(nm, ECHO, gen.gen_params(rng, nm, 12, n=n))
+        sk = C16_SCALE[nm]
+        if sk in ("vst", "cog", "roc"):
+            sk = dict(vst=1000.0, cog=float(n), roc=1e5)[sk]
+        js.append(FpTrack(e, three_decades(rng, scale_n(tier, 10000, 20000), signed=nm not in ("roc", "cog", "vst")), 1e-2, sk, fmode="s",
+                          fam="three_decades_f32_long"))
     for nm in ("ema", "lagf", "ss", "roof", "cc", "wroll", "drawdown", "lnret", "lagrsi", "tflex", "rflex"):
         for _ in range(scale_n(tier, 2, 4)):
             n = rng.randint(3, 9)
@@ -891,18 +909,21 @@ def jobs_C16(rng, tier):
         c = F(rng.choice([8001, 6222, 802, 26]), 8) + F(rng.randrange(1, 2 ** 20), 2 ** 30)
         js.append(FpConst(e, c, scale_n(tier, 100000, 1000000), 1e-6))
     # volatile stretch followed by at least a full window of identical values
-    flat_expect = ["rsi", "myrsi", "vst", "vsct", "wo", "hln", "cti", "net", "roc", "sma", "ema", "alma", "cum", "min", "max"]
+    flat_expect = ["rsi", "myrsi", "vst", "vsct", "wo", "hln", "cti", "net", "roc", "sma", "ema", "alma", "cum", "min", "max", "cog", "bent"]
     for nm in flat_expect:
         for _ in range(scale_n(tier, 6, 60)):
             n = rng.randint(2, 10)
             e = mk(nm, ECHO, gen.gen_params(rng, nm, 10, n=n))
             k = rng.randint(5, 60)
-            vol = [(F(rng.randint(-1000, 1000), 8) + F(rng.getrandbits(44), 2 ** 47) * rng.choice([0, 1])) * rng.choice([1, 1, 100]) for _ in range(k)]
-            c = F(rng.randint(1, 400), 8) * rng.choice([-1, 1])
+            big = rng.choice([1, 1, 1, 10 ** 6, 10 ** 12]) if nm in ("cog", "bent", "hln", "cti", "net", "min", "max") else 1
+            vol = [(F(rng.randint(-1000, 1000), 8) + F(rng.getrandbits(44), 2 ** 47) * rng.choice([0, 1])) * rng.choice([1, 1, 100]) * big for _ in range(k)]
+            if nm == "cog":
+                vol = [abs(v) + F(1, 8) for v in vol]
+            c = F(rng.randint(1, 400), 8) * (rng.choice([-1, 1]) if nm != "cog" else 1)
             flat = [c] * (n + 1 + rng.randint(0, 4))
             sk = C16_SCALE[nm]
-            if sk in ("vst", "roc"):
-                sk = dict(vst="value", roc=100.0)[sk]
+            if sk in ("vst", "roc", "cog"):
+                sk = dict(vst="value", roc=100.0, cog=float(n))[sk]
             # ema is a recursive average: it has not converged after N+1 values even exactly; compared with the exact result anyway
             js.append(FpTrack(e, vol + flat, 1e-4, sk, fam="flat_after_volatile", flat_from=k + n))
     return js
@@ -1061,12 +1082,8 @@ class Heap(Job):
             nodes = len(gen.tree_names(self.e))
             if mz[0] != mz[1]:
                 return dict(explanation="model state size changed after warm-up", expected=mz[0], actual=mz[1], corr_only=True)
-            if z[1] < 8 * mz[1]:
-                return dict(explanation="implementation holds fewer bytes (%d) than the model's buffers need (%d scalars)" % (z[1], mz[1]),
-                            expected=">= %d" % (8 * mz[1]), actual=z[1], corr_only=True)
-            if z[1] > 8 * (4 * mz[1] + 64 * nodes) + 1024 * nodes:
-                return dict(explanation="implementation holds far more bytes (%d) than the model's %d scalars explain" % (z[1], mz[1]),
-                            expected="<= %d" % (8 * (4 * mz[1] + 64 * nodes) + 1024 * nodes), actual=z[1], corr_only=True)
+            # how MANY bytes the implementation holds is not compared with the model: C18 only says the amount stops growing,
+            # and a rewrite may legitimately store less (e.g. signs instead of values) or more (e.g. a monotonic deque)
         return None
 
     def nontrivial_key(self, impl):
@@ -1277,6 +1294,7 @@ def check_property(pid, tier, seed, do_lean=True):
         rule="jobs drawn from one PRNG seeded by VERIF_SEED; a job is non-trivial when its stream outlived the window and the implementation's output was not constant; distinct = distinct (view, parameters, inputs)",
         traces_validated_against_impl=sum(1 for j, f in results if isinstance(j, (Corr, SpecEq)) and f is None),
         correspondence_lines=lines, bit_identical_lines=bit,
+        f64_value_differences_that_vanish_in_exact_arithmetic=sum(1 for j, f in results if getattr(j, "rounding_only", False)),
         job_kinds=dict(kinds), views=dict(views), samples=samples,
         known_findings_replayed=len(known_lines), failures_matching_known_findings=len(known_hits),
         explanation="proof obligations: theorems of SF/Props/%s.lean audited with #print axioms; tie: Rust harness on /repo's working tree vs Lean model (f64 and exact Q) and vs batch specs; relations evaluated on the implementation in exact arithmetic" % pid,
